@@ -50,23 +50,136 @@ def probe(unyt):
     return votes.pop(), rows
 
 
+class Unsupported(Exception):
+    pass
+
+
+def sx(node, env):
+    """python expression -> canonical s-expression, local variables replaced by their definitions
+    (so renaming or inlining a local leaves the text unchanged)"""
+    if isinstance(node, ast.Name):
+        if node.id in env:
+            return env[node.id]
+        return node.id
+    if isinstance(node, ast.Constant):
+        v = node.value
+        if isinstance(v, bool) or v is None:
+            return repr(v)
+        if isinstance(v, (int, float)):
+            return repr(float(v)) if isinstance(v, float) else repr(v)
+        if isinstance(v, str):
+            return "'" + v + "'"
+        raise Unsupported(ast.dump(node))
+    if isinstance(node, ast.Attribute):
+        return f"({node.attr} {sx(node.value, env)})"
+    if isinstance(node, ast.Call):
+        args = [sx(a, env) for a in node.args]
+        for kw in node.keywords:
+            args.append(("**" + sx(kw.value, env)) if kw.arg is None else f"{kw.arg}={sx(kw.value, env)}")
+        if isinstance(node.func, ast.Attribute):
+            # method call: (method receiver args…); module functions keep their dotted name
+            if isinstance(node.func.value, ast.Name) and node.func.value.id in ("np", "numpy"):
+                return "(" + " ".join([f"np.{node.func.attr}"] + args) + ")"
+            return "(" + " ".join([node.func.attr, sx(node.func.value, env)] + args) + ")"
+        if isinstance(node.func, ast.Name):
+            return "(" + " ".join([node.func.id] + args) + ")"
+        raise Unsupported(ast.dump(node))
+    if isinstance(node, ast.BinOp) and isinstance(node.op, (ast.Mult, ast.Sub, ast.Add, ast.Div)):
+        op = {ast.Mult: "*", ast.Sub: "-", ast.Add: "+", ast.Div: "/"}[type(node.op)]
+        return f"({op} {sx(node.left, env)} {sx(node.right, env)})"
+    if isinstance(node, ast.UnaryOp) and isinstance(node.op, ast.Not):
+        return f"(not {sx(node.operand, env)})"
+    if isinstance(node, ast.Tuple):
+        return "(tuple " + " ".join(sx(e, env) for e in node.elts) + ")"
+    if isinstance(node, ast.JoinedStr):
+        return "<message>"
+    raise Unsupported(ast.dump(node))
+
+
+def exits(stmts, env):
+    """s-expression of a block that only leaves the function (handler / raising branch)"""
+    out = []
+    for st in stmts:
+        if isinstance(st, ast.Return):
+            out.append(f"(return {sx(st.value, env) if st.value is not None else 'None'})")
+        elif isinstance(st, ast.Raise) and st.exc is not None:
+            exc = st.exc.func.id if isinstance(st.exc, ast.Call) and isinstance(st.exc.func, ast.Name) else sx(st.exc, env)
+            out.append(f"(raise {exc})")
+        else:
+            raise Unsupported("handler statement " + ast.dump(st))
+    return " ".join(out)
+
+
+def run_block(stmts, env, facts, path):
+    """symbolic execution of straight-line code with try/if; `facts` collects, in source order,
+    every guard (what is attempted, which exceptions are caught, how the function is left) and the
+    returned expression; `env` maps locals to s-expressions over the parameters"""
+    for st in stmts:
+        if isinstance(st, ast.Expr) and isinstance(st.value, ast.Constant) and isinstance(st.value.value, str):
+            continue  # docstring
+        if isinstance(st, ast.Assign) and len(st.targets) == 1 and isinstance(st.targets[0], ast.Name):
+            env[st.targets[0].id] = sx(st.value, env)
+        elif isinstance(st, ast.Try) and not st.orelse and not st.finalbody:
+            before = dict(env)
+            inner = []
+            run_block(st.body, env, inner, path)
+            if inner:
+                raise Unsupported("guards inside a try body")
+            attempted = [f"({k} := {v})" for k, v in env.items() if before.get(k) != v]
+            for h in st.handlers:
+                if h.type is None:
+                    names = ["<bare except>"]
+                elif isinstance(h.type, ast.Tuple):
+                    names = sorted(sx(e, {}) for e in h.type.elts)
+                else:
+                    names = [sx(h.type, {})]
+                facts.append((path + "try", "(try " + " ".join(attempted) + " (except " + " ".join(names) + ") " + exits(h.body, before) + ")"))
+            # after the try, the rebound locals are opaque "converted" values named by their definition
+        elif isinstance(st, ast.If):
+            test = sx(st.test, env)
+            if all(isinstance(b, (ast.Raise, ast.Return)) for b in st.body) and not st.orelse:
+                facts.append((path + "if", f"(if {test} {exits(st.body, env)})"))
+                continue
+            e1, e2 = dict(env), dict(env)
+            run_block(st.body, e1, facts, path + f"when {test} / ")
+            run_block(st.orelse, e2, facts, path + f"when (not {test}) / ")
+            for k in sorted(set(e1) | set(e2)):
+                a, b = e1.get(k), e2.get(k)
+                if a == b:
+                    if a is not None:
+                        env[k] = a
+                elif k in env or (a is not None and b is not None):
+                    facts.append((path + "branch", f"({k} := (ite {test} {a} {b}))"))
+                    env[k] = f"<{k}>"
+                # a local defined in one branch only is a temporary of that branch
+        elif isinstance(st, ast.Return):
+            facts.append((path + "return", sx(st.value, env)))
+        else:
+            raise Unsupported("statement " + ast.dump(st)[:200])
+
+
 def ast_shape(unyt):
-    """the sequence of unit-relevant steps in the body of allclose_units, by `ast`"""
+    """`allclose_units` as a list of facts in source order (guards, branch merges, returned call),
+    locals substituted away"""
     import unyt.array as ua
 
     src = textwrap.dedent(inspect.getsource(ua.allclose_units))
     fn = ast.parse(src).body[0]
-    steps = []
-    atol_unit_expr = None
-    for node in ast.walk(fn):
-        if isinstance(node, ast.Call) and isinstance(node.func, ast.Attribute) and node.func.attr == "in_units":
-            steps.append("in_units:" + ast.unparse(node.func.value) + "->" + ast.unparse(node.args[0]))
-        if isinstance(node, ast.Call) and isinstance(node.func, ast.Name) and node.func.id == "unyt_quantity":
-            if node.args and ast.unparse(node.args[0]) == "atol":
-                atol_unit_expr = ast.unparse(node.args[1]) if len(node.args) > 1 else None
-        if isinstance(node, ast.Raise) and node.exc is not None:
-            steps.append("raise:" + ast.unparse(node.exc).split("(")[0])
-    return {"steps": steps, "bare_atol_unit_expr": atol_unit_expr}
+    params = [a.arg for a in fn.args.args]
+    facts = [("params", " ".join(params))]
+    run_block(fn.body, {}, facts, "")
+    return facts
+
+
+def lean_facts(X, facts):
+    rows = ",\n".join(f"  ({X.lstr(k)}, {X.lstr(v)})" for k, v in facts)
+    return (
+        "/-- `unyt.array.allclose_units` read by `ast` (symbolic execution of its body, locals\n"
+        "    substituted by their definitions): the guards in source order — what is attempted, which\n"
+        "    exceptions are caught, how the function is left —, the branch on the kind of `atol`, and the\n"
+        "    final call; compared with `Ref.allcloseSourceExpected` by `allclose_source_shape` -/\n"
+        "def allcloseSource : List (String × String) := [\n" + rows + "\n]\n"
+    )
 
 
 def generate(X):
@@ -82,11 +195,12 @@ def generate(X):
         "    is read in `desired`'s own unit (`true`, the documented contract) or in `actual`'s unit\n"
         "    (`false`, the pinned commit) -/\n"
         f"def bareAtolInDesiredUnit : Bool := {'true' if flag else 'false'}\n\n"
-        "end Unyt.Generated\n"
+        + lean_facts(X, shape)
+        + "\nend Unyt.Generated\n"
     )
     X.write_if_changed(os.path.join(X.GEN, "TestingFlags.lean"), text)
     import unyt.dimensions as D
     import sympy
 
     dims = sorted(n for n in dir(D) if not n.startswith("_") and isinstance(getattr(D, n), sympy.Basic))
-    return {"bare_atol_in_desired_unit": flag, "probe": rows, "ast": shape, "dimension_names": dims}
+    return {"bare_atol_in_desired_unit": flag, "probe": rows, "ast": [list(f) for f in shape], "dimension_names": dims}
